@@ -142,11 +142,14 @@ pub fn generate(
 
     let search_tables = ctx.take_search_tables();
 
+    let binary_search_fn_ident = ctx.binary_search_fn_ident();
+
     let binary_search_fn = if search_tables.is_empty() {
         quote!()
     } else {
         quote!(
-            fn binary_search(c: char, table: &[(char, char)]) -> bool {
+            #[allow(non_snake_case)]
+            fn #binary_search_fn_ident(c: char, table: &[(char, char)]) -> bool {
                 table
                     .binary_search_by(|(start, end)| match c.cmp(start) {
                         std::cmp::Ordering::Greater => {
@@ -173,6 +176,7 @@ pub fn generate(
                 .map(|(start, end)| quote!((#start, #end)))
                 .collect();
             quote!(
+                #[allow(non_upper_case_globals)]
                 static #ident: [(char, char); #n_ranges] = [
                     #(#pairs),*
                 ];
@@ -614,7 +618,8 @@ fn generate_state_char_arms(
         let guard = if ranges.len() > MAX_GUARD_SIZE {
             let binary_search_table_id = ctx.add_search_table(ranges);
 
-            quote!(binary_search(x, &#binary_search_table_id))
+            let binary_search_fn = ctx.binary_search_fn_ident();
+            quote!(#binary_search_fn(x, &#binary_search_table_id))
         } else {
             let range_checks: Vec<TokenStream> = ranges
                 .into_iter()
@@ -911,7 +916,8 @@ fn generate_right_ctx_state_char_arms(
         let guard = if ranges.len() > MAX_GUARD_SIZE {
             let binary_search_table_id = ctx.add_search_table(ranges);
 
-            quote!(binary_search(x, &#binary_search_table_id))
+            let binary_search_fn = ctx.binary_search_fn_ident();
+            quote!(#binary_search_fn(x, &#binary_search_table_id))
         } else {
             let range_checks: Vec<TokenStream> = ranges
                 .into_iter()
@@ -930,7 +936,8 @@ fn generate_right_ctx_state_char_arms(
         let guard = if accept_ranges.len() > MAX_GUARD_SIZE {
             let binary_search_table_id = ctx.add_search_table(accept_ranges.into_iter().collect());
 
-            quote!(binary_search(x, &#binary_search_table_id))
+            let binary_search_fn = ctx.binary_search_fn_ident();
+            quote!(#binary_search_fn(x, &#binary_search_table_id))
         } else {
             let range_checks: Vec<TokenStream> = accept_ranges
                 .into_iter()
